@@ -15,7 +15,9 @@ Violations(line) ==
      \* a name that would resolve anywhere else is rejected with an error ...
      R("not-rejected", MustReject(in.root, n) /\ ~o.err)
      \* ... and causes no process execution and no file-system change; other names stay inside root/<name>
-  \cup R("executed-outside", \E k \in 1..Len(o.execs) : ~Allowed(in.root, n, o.execs[k]))
+  \cup R("executed-outside", \E k \in 1..Len(o.execs) : o.execs[k] # <<"<install-source>">> /\ ~Allowed(in.root, n, o.execs[k]))
+     \* installing reads the metadata of the source by running it - but not for a name that is refused
+  \cup R("executed-refused-source", MustReject(in.root, n) /\ \E k \in 1..Len(o.execs) : o.execs[k] = <<"<install-source>">>)
   \cup R("changed-outside", \E k \in 1..Len(o.changed) : ~Allowed(in.root, n, o.changed[k]))
      \* the plugin that really is installed under a single-component name is found
   \cup R("installed-plugin-not-found", in.op = "Get" /\ Single(n) /\ n.comps[1] = "p" /\ o.err)
